@@ -24,7 +24,7 @@ Definition sample_ops : list op :=
    Alloc; Alloc; Alloc; Alloc;
    OpenStream 2 0 [(B "X", OStr [1; 2; 255])] []; Write [104; 105] false;
    Put 3 0 (PObj (OArr [OInt (-5); ONull; ORef 1 0])) false; CloseStream false;
-   WriteCompressed [(4, 0); (5, 0)] [PObj (OInt 7); PObj (OName (B "a b"))] false;
+   WriteCompressed [(4, 0); (5, 0)] [PObj (OInt 7); PObj (OName (B "a b"))] [false];
    Close (ODict [(B "Type", OName (B "Catalog")); (B "Pages", ORef 1 0)]) None].
 
 Definition sample_refs : list (N * N) :=
